@@ -4,6 +4,7 @@ use vstd::std_specs::cmp::*;
 verus! {
 //@include prelude.rs
 //@include assume_real.rs
+//@include assume_std.rs
 //@include dtype.rs
 //@include dtype_optcast.rs
 //@include lemmas/window.rs
@@ -63,8 +64,8 @@ pub open spec fn var_spec(w: Seq<Option<real>>, mp: int, o: U) -> bool {
 pub open spec fn std_spec(w: Seq<Option<real>>, mp: int, o: U) -> bool {
     let n = cnt(w);
     &&& n < mp ==> isnull(o)
-    &&& (n >= mp && n >= 2) ==> !isnull(o) && oval(o) >= 0real
-            && (if biased_var(w) > rv(EPS) { oval(o) * oval(o) == ssd(w) / ((n - 1) as real) } else { oval(o) == 0real })
+    &&& (n >= mp && n >= 2) ==> !isnull(o)
+            && (if biased_var(w) > rv(EPS) { oval(o) == rsqrt(ssd(w) / ((n - 1) as real)) } else { oval(o) == 0real })
 }
 // (S2/n - (S1/n)^2) * n / (n-1) == (S2 - S1^2/n) / (n-1): the code's form equals the textbook sample variance
 pub proof fn lemma_var_forms(s1: real, s2: real, n: real)
@@ -76,6 +77,102 @@ pub proof fn lemma_var_forms(s1: real, s2: real, n: real)
     assert(a * n == s2) by(nonlinear_arith) requires a == s2 / n, n >= 2real;
     assert(b * n == s1) by(nonlinear_arith) requires b == s1 / n, n >= 2real;
     assert((a - b * b) * n == s2 - s1 * s1 / n) by(nonlinear_arith) requires a * n == s2, b * n == s1, n >= 2real;
+}
+
+// ---- higher moments: raw moments E_k = S_k / n and the textbook central moments expanded in them
+pub open spec fn em(w: Seq<Option<real>>, k: int) -> real { ps(w, k) / (cnt(w) as real) }
+pub open spec fn cm3(w: Seq<Option<real>>) -> real {
+    let m = em(w, 1);
+    em(w, 3) - 3real * m * em(w, 2) + 2real * m * m * m              // (1/n) sum (x - m)^3
+}
+pub open spec fn cm4(w: Seq<Option<real>>) -> real {
+    let m = em(w, 1);
+    em(w, 4) - 4real * m * em(w, 3) + 6real * m * m * em(w, 2) - 3real * m * m * m * m      // (1/n) sum (x - m)^4
+}
+// adjusted Fisher-Pearson skewness  sqrt(n(n-1))/(n-2) * m3 / m2^(3/2)
+pub open spec fn skew_spec(w: Seq<Option<real>>, mp: int, o: U) -> bool {
+    let n = cnt(w);
+    &&& n < mp ==> isnull(o)
+    &&& (n >= mp && n >= 3) ==> !isnull(o) && (if biased_var(w) > rv(EPS) {
+            let s = rsqrt(biased_var(w));
+            oval(o) == rsqrt((n * (n - 1)) as real) / ((n - 2) as real) * (cm3(w) / (s * s * s))
+        } else { oval(o) == 0real })
+}
+// excess kurtosis  (n-1)/((n-2)(n-3)) * ((n+1) m4/m2^2 - 3(n-1)), written over the common factor as the code does
+pub open spec fn kurt_spec(w: Seq<Option<real>>, mp: int, o: U) -> bool {
+    let n = cnt(w);
+    &&& n < mp ==> isnull(o)
+    &&& (n >= mp && n >= 4) ==> !isnull(o) && (if biased_var(w) > rv(EPS) {
+            let v = biased_var(w);
+            oval(o) == 1real / (((n - 2) * (n - 3)) as real) * (((n * n - 1) as real) * (cm4(w) / (v * v)) - ((3 * ((n - 1) * (n - 1))) as real))
+        } else { oval(o) == 0real })
+}
+// E3/s^3 - 3(m/s) - (m/s)^3 == m3/s^3   with  s^2 = E2 - m^2
+pub proof fn lemma_skew_core(e3: real, m: real, s: real, e2: real)
+    requires s > 0real, s * s == e2 - m * m,
+    ensures e3 / rpow(s, 3) - 3real * (m / s) - rpow(m / s, 3) == (e3 - 3real * m * e2 + 2real * m * m * m) / (s * s * s),
+        rpow(s, 3) > 0real,
+{
+    reveal_with_fuel(rpow, 4);
+    assert(rpow(s, 3) == s * s * s) by(nonlinear_arith) requires rpow(s, 3) == s * (s * (s * 1real));
+    assert(rpow(m / s, 3) == (m / s) * (m / s) * (m / s)) by(nonlinear_arith) requires rpow(m / s, 3) == (m / s) * ((m / s) * ((m / s) * 1real));
+    let s3 = s * s * s;
+    assert(s3 > 0real) by(nonlinear_arith) requires s > 0real, s3 == s * s * s;
+    let q1 = e3 / s3;
+    let q2 = m / s;
+    assert(q1 * s3 == e3) by(nonlinear_arith) requires q1 == e3 / s3, s3 > 0real;
+    assert(q2 * s == m) by(nonlinear_arith) requires q2 == m / s, s > 0real;
+    let lhs = q1 - 3real * q2 - q2 * q2 * q2;
+    let num = e3 - 3real * m * e2 + 2real * m * m * m;
+    assert(lhs * s3 == num) by(nonlinear_arith)
+        requires lhs == q1 - 3real * q2 - q2 * q2 * q2, q1 * s3 == e3, q2 * s == m, s3 == s * s * s, s * s == e2 - m * m,
+            num == e3 - 3real * m * e2 + 2real * m * m * m;
+    let rhs = num / s3;
+    assert(rhs * s3 == num) by(nonlinear_arith) requires rhs == num / s3, s3 > 0real;
+    assert(lhs == rhs) by(nonlinear_arith) requires lhs * s3 == num, rhs * s3 == num, s3 > 0real;
+}
+// (E4 - 4 m E3)/v^2 + 6 m^2/v + 3 (m^2/v)^2 == m4 / v^2   with  v = E2 - m^2
+pub proof fn lemma_kurt_core(e4: real, e3: real, m: real, v: real, e2: real)
+    requires v > 0real, v == e2 - m * m,
+    ensures (e4 - 4real * m * e3) / (v * v) + 6real * (m * m / v) + 3real * rpow(m * m / v, 2)
+        == (e4 - 4real * m * e3 + 6real * m * m * e2 - 3real * m * m * m * m) / (v * v),
+        v * v > 0real,
+{
+    reveal_with_fuel(rpow, 3);
+    assert(rpow(m * m / v, 2) == (m * m / v) * (m * m / v)) by(nonlinear_arith) requires rpow(m * m / v, 2) == (m * m / v) * ((m * m / v) * 1real);
+    let v2 = v * v;
+    assert(v2 > 0real) by(nonlinear_arith) requires v > 0real, v2 == v * v;
+    let a = (e4 - 4real * m * e3) / v2;
+    let b = m * m / v;
+    assert(a * v2 == e4 - 4real * m * e3) by(nonlinear_arith) requires a == (e4 - 4real * m * e3) / v2, v2 > 0real;
+    assert(b * v == m * m) by(nonlinear_arith) requires b == m * m / v, v > 0real;
+    let lhs = a + 6real * b + 3real * (b * b);
+    let num = e4 - 4real * m * e3 + 6real * m * m * e2 - 3real * m * m * m * m;
+    assert(lhs * v2 == num) by(nonlinear_arith)
+        requires lhs == a + 6real * b + 3real * (b * b), a * v2 == e4 - 4real * m * e3, b * v == m * m, v2 == v * v, v == e2 - m * m,
+            num == e4 - 4real * m * e3 + 6real * m * m * e2 - 3real * m * m * m * m;
+    let rhs = num / v2;
+    assert(rhs * v2 == num) by(nonlinear_arith) requires rhs == num / v2, v2 > 0real;
+    assert(lhs == rhs) by(nonlinear_arith) requires lhs * v2 == num, rhs * v2 == num, v2 > 0real;
+}
+
+// A-LEN: products of window counts stay far inside usize for series shorter than 2^31
+pub proof fn lemma_small_products(k: int)
+    requires 0 <= k <= 0x7fff_ffff,
+    ensures
+        k * k <= 0x3fff_ffff_0000_0001, k * (k + 1) <= 0x4000_0000_0000_0000, k * (k - 1) <= 0x3fff_ffff_0000_0001,
+        (k - 2) * (k - 3) <= 0x3fff_ffff_0000_0001, (k - 1) * (k - 1) <= 0x3fff_ffff_0000_0001,
+        3 * ((k - 1) * (k - 1)) <= 0xbfff_fffd_0000_0003, ipow(k, 2) == k * k, ipow(k - 1, 2) == (k - 1) * (k - 1),
+        k >= 1 ==> k * k >= 1, k >= 4 ==> (k - 2) * (k - 3) >= 1,
+{
+    reveal_with_fuel(ipow, 3);
+    assert(k * k <= 0x3fff_ffff_0000_0001) by(nonlinear_arith) requires 0 <= k <= 0x7fff_ffff;
+    assert(k * (k + 1) <= 0x4000_0000_0000_0000) by(nonlinear_arith) requires 0 <= k <= 0x7fff_ffff;
+    assert(k * (k - 1) <= 0x3fff_ffff_0000_0001) by(nonlinear_arith) requires 0 <= k <= 0x7fff_ffff;
+    assert((k - 2) * (k - 3) <= 0x3fff_ffff_0000_0001) by(nonlinear_arith) requires 0 <= k <= 0x7fff_ffff;
+    assert((k - 1) * (k - 1) <= 0x3fff_ffff_0000_0001) by(nonlinear_arith) requires 0 <= k <= 0x7fff_ffff;
+    if k >= 1 { assert(k * k >= 1) by(nonlinear_arith) requires k >= 1; }
+    if k >= 4 { assert((k - 2) * (k - 3) >= 1) by(nonlinear_arith) requires k >= 4; }
 }
 
 pub proof fn lemma_scaled_pos(a: real, n: real)
@@ -108,6 +205,7 @@ pub open spec fn sum_spec(w: Seq<Option<real>>, mp: int, o: U) -> bool {
 //@closure 1 extra
     open spec fn hist(&self) -> Seq<Call<T, U>> { self.h@ }
     open spec fn elem_ok(v: T) -> bool { !nan(v) }
+    open spec fn cap_len() -> nat { 0x7fff_ffff }
 //@closure 1 inv
         &&& hist_wf(self.h@) && canon_seq(adds(self.h@)) && all_some(vals(adds(self.h@)))
         &&& sums_ok(vals(win(self.h@)), self.n, self.sum, self.sum, self.sum, self.sum, 1)         // #C01 state_describes_window
@@ -121,6 +219,7 @@ pub open spec fn sum_spec(w: Seq<Option<real>>, mp: int, o: U) -> bool {
             ax_lits();
             reveal_with_fuel(rpow, 4);
             lemma_step_vals(self.h@, v_rm, v);
+            lemma_small_products(self.n as int); lemma_small_products(self.n as int + 1);
             assert(val(v).is_some());
             if v_rm.is_some() {
                 let k = nrm(self.h@) as int;
@@ -174,6 +273,7 @@ pub open spec fn sum_spec(w: Seq<Option<real>>, mp: int, o: U) -> bool {
 //@closure 1 extra
     open spec fn hist(&self) -> Seq<Call<T, U>> { self.h@ }
     open spec fn elem_ok(v: T) -> bool { !nan(v) }
+    open spec fn cap_len() -> nat { 0x7fff_ffff }
 //@closure 1 inv
         &&& hist_wf(self.h@) && canon_seq(adds(self.h@)) && all_some(vals(adds(self.h@)))
         &&& sums_ok(vals(win(self.h@)), self.n, self.sum, self.sum, self.sum, self.sum, 1)         // #C01 state_describes_window
@@ -187,6 +287,7 @@ pub open spec fn sum_spec(w: Seq<Option<real>>, mp: int, o: U) -> bool {
             ax_lits();
             reveal_with_fuel(rpow, 4);
             lemma_step_vals(self.h@, v_rm, v);
+            lemma_small_products(self.n as int); lemma_small_products(self.n as int + 1);
             assert(val(v).is_some());
             if v_rm.is_some() {
                 let k = nrm(self.h@) as int;
@@ -240,6 +341,7 @@ pub open spec fn sum_spec(w: Seq<Option<real>>, mp: int, o: U) -> bool {
 //@closure 1 extra
     open spec fn hist(&self) -> Seq<Call<T, U>> { self.h@ }
     open spec fn elem_ok(v: T) -> bool { !nan(v) }
+    open spec fn cap_len() -> nat { 0x7fff_ffff }
 //@closure 1 inv
         &&& hist_wf(self.h@) && canon_seq(adds(self.h@)) && all_some(vals(adds(self.h@)))
         &&& sums_ok(vals(win(self.h@)), self.n, self.sum, self.sum2, self.sum, self.sum, 2)         // #C01 state_describes_window
@@ -253,6 +355,7 @@ pub open spec fn sum_spec(w: Seq<Option<real>>, mp: int, o: U) -> bool {
             ax_lits();
             reveal_with_fuel(rpow, 4);
             lemma_step_vals(self.h@, v_rm, v);
+            lemma_small_products(self.n as int); lemma_small_products(self.n as int + 1);
             assert(val(v).is_some());
             if v_rm.is_some() {
                 let k = nrm(self.h@) as int;
@@ -307,6 +410,7 @@ pub open spec fn sum_spec(w: Seq<Option<real>>, mp: int, o: U) -> bool {
 //@closure 1 extra
     open spec fn hist(&self) -> Seq<Call<T, U>> { self.h@ }
     open spec fn elem_ok(v: T) -> bool { !nan(v) }
+    open spec fn cap_len() -> nat { 0x7fff_ffff }
 //@closure 1 inv
         &&& hist_wf(self.h@) && canon_seq(adds(self.h@)) && all_some(vals(adds(self.h@)))
         &&& sums_ok(vals(win(self.h@)), self.n, self.sum, self.sum2, self.sum, self.sum, 2)         // #C01 state_describes_window
@@ -320,6 +424,7 @@ pub open spec fn sum_spec(w: Seq<Option<real>>, mp: int, o: U) -> bool {
             ax_lits();
             reveal_with_fuel(rpow, 4);
             lemma_step_vals(self.h@, v_rm, v);
+            lemma_small_products(self.n as int); lemma_small_products(self.n as int + 1);
             assert(val(v).is_some());
             if v_rm.is_some() {
                 let k = nrm(self.h@) as int;
@@ -355,6 +460,167 @@ pub open spec fn sum_spec(w: Seq<Option<real>>, mp: int, o: U) -> bool {
             assert forall|i: int| 0 <= i < s.len() implies p(i, #[trigger] s[i]) by {
                 lemma_fifo_window_is_wnd(h, this.view(), window, i);
                 assert(std_spec(vals(fifo_window(h, i)), __clo1.min_periods as int, h[i].out));
+            }
+            lemma_delivered_each(__ret, match out0 { Some(o) => Some(final(o).written()), None => None }, s, p);
+        }
+    }
+//@end
+
+
+//@fn name=ts_skew_to crate=tea-rolling ctx="pub trait RollingFeature" props=C01,C05,C06,C08 arith=C05
+//@types T::Inner=${TI}
+//@sig fn ts_skew_to<V: RollingDrivers<T>, O: Vec1<U>>(this: &V, window: usize, min_periods: Option<usize>, out: Option<&mut O::Buf>) -> (r: Option<O>)
+//@spec
+    requires
+        forall|i: int| 0 <= i < this.view().len() ==> !nan(#[trigger] this.view()[i]),
+        out matches Some(o) ==> buf_fresh(o, this.view().len()),
+        (window == 0 && out.is_none() && this.view().len() > 0) ==> panic_allowed(),
+        this.view().len() <= 0x7fff_ffff,      // A-LEN
+    ensures
+        window >= 1 ==> delivered_each(r, match out { Some(o) => Some(final(o).written()), None => None }, this.view().len(),       // #C05 one_output_per_input
+            |i: int, o: U| skew_spec(vals(wnd(this.view(), window, i)), mp_eff(min_periods, window, 3), o)),                              // #C01,C05,C06 value_and_mask
+//@closure 1 name=CloSkew trait="RollingFn<T, U>" params="v_rm: Option<T>, v: T" ret="(res: U)" push="Call { rm: v_rm, v: v, out: __r }" caps="mut n: usize, mut sum: f64, mut sum2: f64, mut sum3: f64, min_periods: usize"
+//@closure 1 extra
+    open spec fn hist(&self) -> Seq<Call<T, U>> { self.h@ }
+    open spec fn elem_ok(v: T) -> bool { !nan(v) }
+    open spec fn cap_len() -> nat { 0x7fff_ffff }
+//@closure 1 inv
+        &&& hist_wf(self.h@) && canon_seq(adds(self.h@)) && all_some(vals(adds(self.h@)))
+        &&& sums_ok(vals(win(self.h@)), self.n, self.sum, self.sum2, self.sum3, self.sum, 3)         // #C01 state_describes_window
+        &&& self.min_periods >= 3
+        &&& outs_ok(self.h@, |w: Seq<T>, o: U| skew_spec(vals(w), self.min_periods as int, o))
+//@at closure 1 first
+        let ghost w0 = vals(win(self.h@));
+        let ghost wp = w0.push(val(v));
+        proof {
+            broadcast use a_real, a_real_cmp;
+            ax_lits();
+            reveal_with_fuel(rpow, 4);
+            lemma_step_vals(self.h@, v_rm, v);
+            lemma_small_products(self.n as int); lemma_small_products(self.n as int + 1);
+            if cnt(wp) >= 3 && biased_var(wp) > rv(EPS) {
+                let vv = biased_var(wp);
+                ax_rsqrt(vv);
+                let s = rsqrt(vv);
+                assert(s > 0real) by(nonlinear_arith) requires s >= 0real, s * s == vv, vv > 0real;
+                lemma_skew_core(em(wp, 3), em(wp, 1), s, em(wp, 2));
+                ax_rsqrt((cnt(wp) * (cnt(wp) - 1)) as real);
+            }
+            assert(val(v).is_some());
+            if v_rm.is_some() {
+                let k = nrm(self.h@) as int;
+                if k < self.h@.len() { assert(vals(adds(self.h@))[k].is_some()); assert(adds(self.h@).push(v)[k] == adds(self.h@)[k]); }
+                assert(val(v_rm.unwrap()).is_some());
+            }
+        }
+//@at closure 1 last
+        proof {
+            let c = Call { rm: v_rm, v: v, out: __r };
+            lemma_fifo_step(self.h@, c);
+            if v_rm.is_some() { assert(v_rm.unwrap() == adds(self.h@).push(v)[nrm(self.h@) as int]); }
+            assert(adds(self.h@.push(c)) =~= adds(self.h@).push(v));
+            assert(vals(adds(self.h@.push(c))) =~= vals(adds(self.h@)).push(val(v)));
+            if cnt(wp) >= 3 && biased_var(wp) > rv(EPS) {
+                let vv = biased_var(wp);
+                ax_rsqrt(vv);
+                let s = rsqrt(vv);
+                assert(s > 0real) by(nonlinear_arith) requires s >= 0real, s * s == vv, vv > 0real;
+                lemma_skew_core(em(wp, 3), em(wp, 1), s, em(wp, 2));
+                ax_rsqrt((cnt(wp) * (cnt(wp) - 1)) as real);
+            }
+            assert(skew_spec(vals(win(self.h@).push(v)), self.min_periods as int, __r));       // #C01,C05 output_is_window_statistic
+            lemma_outs_step(self.h@, c, |w: Seq<T>, o: U| skew_spec(vals(w), self.min_periods as int, o));
+            assert(sums_ok(vals(win(self.h@.push(c))), n, sum, sum2, sum3, sum, 3));              // #C01 state_describes_window
+        }
+//@at body first
+    let ghost mp0 = min_periods;
+    let ghost out0 = out;
+    proof { ax_lits(); }
+//@at body last
+    proof {
+        let h = __clo1.h@;
+        let s = outs(h);
+        if window >= 1 {
+            let p = |i: int, o: U| skew_spec(vals(wnd(this.view(), window, i)), mp_eff(mp0, window, 3), o);
+            assert forall|i: int| 0 <= i < s.len() implies p(i, #[trigger] s[i]) by {
+                lemma_fifo_window_is_wnd(h, this.view(), window, i);
+                assert(skew_spec(vals(fifo_window(h, i)), __clo1.min_periods as int, h[i].out));
+            }
+            lemma_delivered_each(__ret, match out0 { Some(o) => Some(final(o).written()), None => None }, s, p);
+        }
+    }
+//@end
+
+//@fn name=ts_kurt_to crate=tea-rolling ctx="pub trait RollingFeature" props=C01,C05,C06,C08 arith=C05
+//@types T::Inner=${TI}
+//@sig fn ts_kurt_to<V: RollingDrivers<T>, O: Vec1<U>>(this: &V, window: usize, min_periods: Option<usize>, out: Option<&mut O::Buf>) -> (r: Option<O>)
+//@spec
+    requires
+        forall|i: int| 0 <= i < this.view().len() ==> !nan(#[trigger] this.view()[i]),
+        out matches Some(o) ==> buf_fresh(o, this.view().len()),
+        (window == 0 && out.is_none() && this.view().len() > 0) ==> panic_allowed(),
+        this.view().len() <= 0x7fff_ffff,      // A-LEN
+    ensures
+        window >= 1 ==> delivered_each(r, match out { Some(o) => Some(final(o).written()), None => None }, this.view().len(),       // #C05 one_output_per_input
+            |i: int, o: U| kurt_spec(vals(wnd(this.view(), window, i)), mp_eff(min_periods, window, 4), o)),                              // #C01,C05,C06 value_and_mask
+//@closure 1 name=CloKurt trait="RollingFn<T, U>" params="v_rm: Option<T>, v: T" ret="(res: U)" push="Call { rm: v_rm, v: v, out: __r }" caps="mut n: usize, mut sum: f64, mut sum2: f64, mut sum3: f64, mut sum4: f64, min_periods: usize"
+//@closure 1 extra
+    open spec fn hist(&self) -> Seq<Call<T, U>> { self.h@ }
+    open spec fn elem_ok(v: T) -> bool { !nan(v) }
+    open spec fn cap_len() -> nat { 0x7fff_ffff }
+//@closure 1 inv
+        &&& hist_wf(self.h@) && canon_seq(adds(self.h@)) && all_some(vals(adds(self.h@)))
+        &&& sums_ok(vals(win(self.h@)), self.n, self.sum, self.sum2, self.sum3, self.sum4, 4)         // #C01 state_describes_window
+        &&& self.min_periods >= 4
+        &&& outs_ok(self.h@, |w: Seq<T>, o: U| kurt_spec(vals(w), self.min_periods as int, o))
+//@at closure 1 first
+        let ghost w0 = vals(win(self.h@));
+        let ghost wp = w0.push(val(v));
+        proof {
+            broadcast use a_real, a_real_cmp;
+            ax_lits();
+            reveal_with_fuel(rpow, 4);
+            lemma_step_vals(self.h@, v_rm, v);
+            lemma_small_products(self.n as int); lemma_small_products(self.n as int + 1);
+            if cnt(wp) >= 4 && biased_var(wp) > rv(EPS) {
+                lemma_kurt_core(em(wp, 4), em(wp, 3), em(wp, 1), biased_var(wp), em(wp, 2));
+                reveal_with_fuel(ipow, 3);
+            }
+            assert(val(v).is_some());
+            if v_rm.is_some() {
+                let k = nrm(self.h@) as int;
+                if k < self.h@.len() { assert(vals(adds(self.h@))[k].is_some()); assert(adds(self.h@).push(v)[k] == adds(self.h@)[k]); }
+                assert(val(v_rm.unwrap()).is_some());
+            }
+        }
+//@at closure 1 last
+        proof {
+            let c = Call { rm: v_rm, v: v, out: __r };
+            lemma_fifo_step(self.h@, c);
+            if v_rm.is_some() { assert(v_rm.unwrap() == adds(self.h@).push(v)[nrm(self.h@) as int]); }
+            assert(adds(self.h@.push(c)) =~= adds(self.h@).push(v));
+            assert(vals(adds(self.h@.push(c))) =~= vals(adds(self.h@)).push(val(v)));
+            if cnt(wp) >= 4 && biased_var(wp) > rv(EPS) {
+                lemma_kurt_core(em(wp, 4), em(wp, 3), em(wp, 1), biased_var(wp), em(wp, 2));
+                reveal_with_fuel(ipow, 3);
+            }
+            assert(kurt_spec(vals(win(self.h@).push(v)), self.min_periods as int, __r));       // #C01,C05 output_is_window_statistic
+            lemma_outs_step(self.h@, c, |w: Seq<T>, o: U| kurt_spec(vals(w), self.min_periods as int, o));
+            assert(sums_ok(vals(win(self.h@.push(c))), n, sum, sum2, sum3, sum4, 4));              // #C01 state_describes_window
+        }
+//@at body first
+    let ghost mp0 = min_periods;
+    let ghost out0 = out;
+    proof { ax_lits(); }
+//@at body last
+    proof {
+        let h = __clo1.h@;
+        let s = outs(h);
+        if window >= 1 {
+            let p = |i: int, o: U| kurt_spec(vals(wnd(this.view(), window, i)), mp_eff(mp0, window, 4), o);
+            assert forall|i: int| 0 <= i < s.len() implies p(i, #[trigger] s[i]) by {
+                lemma_fifo_window_is_wnd(h, this.view(), window, i);
+                assert(kurt_spec(vals(fifo_window(h, i)), __clo1.min_periods as int, h[i].out));
             }
             lemma_delivered_each(__ret, match out0 { Some(o) => Some(final(o).written()), None => None }, s, p);
         }
